@@ -80,7 +80,7 @@ Fixpoint live_rels (k : key) (h : list event) : list ts :=
   match h with
   | [] => []
   | ERel k' _ c :: r => if N.eqb k' k then c :: live_rels k r else live_rels k r
-  | ERecycle k' :: r => if N.eqb k' k then [] else live_rels k r
+  | ERecycle k' _ _ :: r => if N.eqb k' k then [] else live_rels k r
   | EAcq _ _ :: r => live_rels k r
   end.
 (* lock i acquired key k at a moment when every earlier, not yet recycled release of k had commit <= st *)
@@ -90,19 +90,20 @@ Lemma acq_ok_app ev h i k st : acq_ok h i k st -> acq_ok (ev ++ h) i k st.
 Proof. intros (h1 & h2 & E & F). exists (ev ++ h1), h2. rewrite E, app_assoc. auto. Qed.
 Lemma acq_ok_cons e h i k st : acq_ok h i k st -> acq_ok (e :: h) i k st.
 Proof. apply (acq_ok_app [e]). Qed.
+Definition rec_shape (ev : list event) : Prop := forall e, In e ev -> exists k' c m, e = ERecycle k' c m.
 Lemma live_rels_recycle_app ev h k c :
-  (forall e, In e ev -> exists k', e = ERecycle k') ->
-  In c (live_rels k (ev ++ h)) -> ~ In (ERecycle k) ev /\ In c (live_rels k h).
+  rec_shape ev ->
+  In c (live_rels k (ev ++ h)) -> (forall c0 m0, ~ In (ERecycle k c0 m0) ev) /\ In c (live_rels k h).
 Proof.
-  induction ev as [|e ev IH]; simpl; intros SH I; [tauto|].
-  destruct (SH e (or_introl eq_refl)) as [k' E]. subst e. simpl in I.
+  induction ev as [|e ev IH]; simpl; intros SH I; [split; auto; intros ? ? []|].
+  destruct (SH e (or_introl eq_refl)) as (k' & c' & m' & E). subst e. simpl in I.
   destruct (N.eqb_spec k' k); [destruct I|].
   destruct (IH (fun e H => SH e (or_intror H)) I). split; auto.
-  intros [X|X]; [inversion X; congruence | auto].
+  intros c0 m0 [X|X]; [inversion X; congruence | eapply H; eauto].
 Qed.
 Lemma in_app_recycle_rel ev h k j c :
-  (forall e, In e ev -> exists k', e = ERecycle k') -> In (ERel k j c) (ev ++ h) -> In (ERel k j c) h.
+  rec_shape ev -> In (ERel k j c) (ev ++ h) -> In (ERel k j c) h.
 Proof.
   intros SH I. apply in_app_or in I. destruct I as [I|I]; auto.
-  destruct (SH _ I) as [k' E]. discriminate.
+  destruct (SH _ I) as (k' & c' & m' & E). discriminate.
 Qed.
